@@ -169,7 +169,12 @@ def run(pid, mod, chk):
                 continue
             _, rc, viol, stdout = res[0]
             ok = rc == 0
-            results.append({"independent_refactoring": name, "silent": ok, "keys": [v["key"] for v in viol][:4]})
+            known_fa = pid in meta.get("known_false_alarm", [])
+            results.append({"independent_refactoring": name, "silent": ok, "documented_limitation": known_fa and not ok, "keys": [v["key"] for v in viol][:4]})
+            if not ok and known_fa:
+                # a re-implementation the structural rules do not recognise (DESIGN.md §7.5b): reported, not counted against the self-test
+                print(f"[{pid}] selftest: refactor {name}: false alarm (documented limitation: {meta.get('residual_reason', '')[:90]})")
+                continue
             print(f"[{pid}] selftest: refactor {name}: {'silent' if ok else 'FALSE ALARM'}")
             if not ok:
                 bad += 1
